@@ -117,6 +117,7 @@ type Engine struct {
 	entry        string
 	prefix       []Dec
 	taken        []Dec
+	pc           []*Term
 	alts         [][]Dec
 	vars         []*Term
 	varTags      []string
@@ -204,7 +205,15 @@ func (e *Engine) ensureModel() {
 	case "unsat":
 		panic(pathAbort{"path condition unsatisfiable"})
 	default:
-		panic(pathTruncated{"solver unknown on path condition"})
+		r2, m := e.standalone(nil)
+		switch r2 {
+		case "sat":
+			e.mdl, e.mdlValid = m, true
+		case "unsat":
+			panic(pathAbort{"path condition unsatisfiable"})
+		default:
+			panic(pathTruncated{"solver unknown on path condition"})
+		}
 	}
 }
 
@@ -221,10 +230,14 @@ func (e *Engine) query(extra ...*Term) (string, *model) {
 		e.sol.getModel(e.vars, m)
 	}
 	e.sol.pop()
+	if r == "unknown" {
+		r, m = e.standalone(extra)
+	}
 	return r, m
 }
 
 func (e *Engine) addPC(c *Term) {
+	e.pc = append(e.pc, c)
 	e.sol.assert(c)
 }
 
@@ -452,6 +465,7 @@ func (e *Engine) resetPath(entry string, prefix []Dec) {
 	e.entry = entry
 	e.prefix = prefix
 	e.taken = nil
+	e.pc = nil
 	e.alts = nil
 	e.vars = nil
 	e.varTags = nil
